@@ -247,6 +247,14 @@ def run_program(spec: dict[str, Any], col: common.Collector, *, variant: bool = 
                     col.histo("trusted_base_disagreements" if iok else
                               "trusted_base_disagreements_unconfirmed_by_interpreter",
                               "+".join(sorted(tb_sig)))
+                elif iok and floor_subscripts_repair(cp, bp, env, name, want_c,
+                                                     8.0 * spread[name]):
+                    # kernel is right (interpreter), binary is wrong, and giving the integer
+                    # `/` and `%` in the C text's subscripts loopy's own (floor) semantics
+                    # makes the binary right: loopy printed a floor division of a possibly
+                    # negative affine form as a truncating C division
+                    col.histo("trusted_base_disagreements",
+                              "loopy-C:subscript-floor-division-printed-truncating")
                 else:
                     key = classify_value(spec, name, got, want_c)
                     col.violation(key, f"output {name} differs from NumPy beyond tolerance"
@@ -257,6 +265,28 @@ def run_program(spec: dict[str, Any], col: common.Collector, *, variant: bool = 
                                    "diff": compare.describe_diff(got, want_c)})
         result["outputs"][use_vs] = rr.outputs
     return result
+
+
+def floor_subscripts_repair(cp: Any, bp: Any, env: dict[str, Any], name: str,
+                            want: np.ndarray, err: Any) -> bool:
+    """Positive evidence for one loopy mistranslation: the same C text with floor semantics
+    for the integer divisions in its subscripts (ctarget.floor_subscript_variant) computes
+    *want* for output *name*."""
+    from vf.exec import ctarget
+    from vf.oracle import compare
+    try:
+        cp2 = getattr(cp, "vf_floor_variant", False)
+        if cp2 is False:
+            cp2 = ctarget.floor_subscript_variant(cp)
+            cp.vf_floor_variant = cp2
+        if cp2 is None:
+            return False
+        rr = ctarget.run(cp2, bp, env)
+        got = rr.outputs.get(name)
+        return bool(got is not None and got.shape == want.shape and not rr.canary_violations
+                    and compare.close_ulps(got, want, 16.0, err=err))
+    except Exception:  # noqa: BLE001
+        return False
 
 
 def gcc_error_class(detail: str) -> str:
